@@ -1,5 +1,5 @@
 """C12 — long replies are split without losing, inventing or overflowing text."""
-import re, signal, textwrap
+import os, re, signal, textwrap
 import boot
 from lib import wire
 from lib.shrink import shrink_seq
@@ -34,9 +34,17 @@ LEVEL_TEXT = ('Coq theorems over an executable Gallina model of utils.str.byteTe
               'for 1..99 pending; FormatContext.size covers start/end; parse is total.  Tied to the source by regenerated constants/shapes and a differential '
               'run at unit level and against a live bot on every check.')
 LEVEL_NOTE = ('Trusted: Coq kernel, gen_tables.py, extraction + OCaml driver, the Python harness, CPython textwrap/str.encode (explicit inputs / compared). '
-              'Partial: the formatted-text theorems require text whose only blanks are spaces (munge s = s) and use the sufficient predicate '
-              '"no chunk starts with a digit or comma" rather than the exact junction condition; the end-to-end theorem is for plain text only and '
-              '(C12_reply_fmt_end_to_end does the same for formatted text on fmt_dom, i.e. under safe_cuts); both bound the number of chunks by 100 through a computed clause; reply.inPrivate/withNotice are modelled, action/error replies are not.')
+              'Partial: the formatted-text theorems require text whose only blanks are spaces (munge s = s) and the sufficient predicate '
+              '"no chunk starts with a digit or comma"; both end-to-end theorems bound the number of chunks by 100 through a computed clause. '
+              'Modelled, not verified / not modelled (gap audit): irc.error() replies are never split (finding F46, scenario only); the pending chunks are '
+              'keyed by user@host on one network-wide class attribute, so users sharing a user@host -- or the same user@host on two networks -- share them '
+              '(F47, scenario only; the model has one owner and one peer with distinct user@host); a change of the bot\'s own visible host (CHGHOST, 396) '
+              'is not followed by irc.prefix (F48; C12_prefix_tracks assumes user and host fixed); ircutils.safeArgument on texts with CR/LF/NUL (repr() '
+              'of the text) is outside the generators; action replies and noLengthCheck=True are not split by design and not modelled; nested replies, '
+              'irc.replies(), outFilter callbacks of plugins, the +draft/reply tag (message-tags) and reply.mores.length below 4 + reserve + formatting '
+              'overhead (byteTextWrap then never returns: compared at unit level only) are outside the live model; the translated words are inputs '
+              '(the four shipped locales are exercised through supybot.i18n\'s own .po parser, not through supybot.language, because a source tree '
+              'does not carry the core locales where i18n looks for them).')
 TECHNIQUE = 'Coq proof (induction over the wrap loop with a fuel/measure invariant) + regenerated tables + extracted-model differential correspondence incl. live bot'
 EXPLANATION = 'C12: model of byteTextWrap/wrap/reply/more; theorems in coq/C12/Props.v'
 
@@ -156,7 +164,8 @@ def junction(inp):
     ircutils, utils = mods()
     if inp.get('op') == 'live':
         allowed = live_allowed(inp)
-        text, length = inp['s'][:max(0, allowed * inp['maximum'])], allowed - 21
+        set_language(inp.get('lang'))
+        text, length = inp['s'][:max(0, allowed * inp['maximum'])], allowed - more_reserve()
     else:
         text, length = inp['text'], inp['size']
     full = _text(inp)
@@ -181,7 +190,10 @@ def junction(inp):
 
 
 CLASSES = {
-    'color_digit_junction': lambda inp: junction(inp),
+    'color_digit_junction': lambda inp: inp.get('op') != 'scenario' and junction(inp),
+    'error_reply_not_split': lambda inp: inp.get('op') == 'scenario' and inp['scenario'] == 'long_error',
+    'mores_shared_by_userhost': lambda inp: inp.get('op') == 'scenario' and inp['scenario'] == 'shared_userhost',
+    'own_host_change_not_followed': lambda inp: inp.get('op') == 'scenario' and inp['scenario'] == 'chghost',
 }
 
 
@@ -355,6 +367,28 @@ def drain(irc):
             out.append(str(m))
 
 
+LOCALES = ('fr', 'fi', 'de', 'it')
+
+
+def set_language(lang):
+    """what an installed bot with supybot.language = lang has: the core translations of locales/<lang>.po, read by
+    supybot.i18n's own parser (from a source tree the core .po files are not on the path i18n looks at)"""
+    import supybot.callbacks as callbacks
+    callbacks._.translations = {}
+    if lang and lang != 'en':
+        with open(os.path.join(boot.REPO, 'locales', '%s.po' % lang), encoding='utf8') as f:
+            callbacks._._parse(f)
+
+
+def more_words():
+    import supybot.callbacks as callbacks
+    return str(callbacks._('more message')), str(callbacks._('more messages'))
+
+
+def more_reserve():
+    return max(len(('(XX %s)' % w).encode()) for w in more_words()) + 3
+
+
 def live_allowed(inp):
     if inp['length']:
         return inp['length']
@@ -426,6 +460,7 @@ def live_run(inp, max_rounds=400):
         kw['notice'] = True
     b['Emit'].kw = kw
     conf.supybot.plugins.Misc.mores.setValue(inp['number'])
+    set_language(inp.get('lang'))
     frm = '%s!u%d@h.example' % (inp['nick'], b['n'])
     to = botnick if inp['private'] else inp['chan']
     public = irc.isChannel(to)
@@ -465,13 +500,20 @@ def live_wire(inp, public, times):
            inp['noticePriv'], inp['mores'], inp['length'], inp['maximum'], inp['instant'],
            inp.get('kwPrivate', False), inp.get('confInPrivate', False), wire.opt(inp.get('kwTo')),
            bool(inp.get('kwTo')) and bot()['irc'].isChannel(inp['kwTo']), inp.get('kwNotice', False),
-           inp.get('confWithNotice', False)]
+           inp.get('confWithNotice', False)] + list(more_words())
     if 'ops' in inp:
         return [8, [cfg, inp['s'], inp['number'], ['ANB'.index(o) for o in inp['_ops']]]]
     return [5, [cfg, inp['s'], inp['number'], times]]
 
 
-SUFFIX = re.compile(' \x02\\((\\d+) more messages?\\)\x02$')
+class _Suffix(object):
+    """' \\x02(N <more message(s)>)\\x02' at the end, in the bot's current language; group(2) is the word used"""
+    def search(self, text):
+        one, many = more_words()
+        return re.search(' \x02\\((\\d+) (%s|%s)\\)\x02$' % (re.escape(many), re.escape(one)), text)
+
+
+SUFFIX = _Suffix()
 
 
 def dews(s):
@@ -514,7 +556,7 @@ def live_oracle(ctx, inp, public, rounds, ircutils):
             if sm and not SUFFIX.search(inp['s']):
                 ctx.fail(inp, 'last message announces %s more' % sm.group(1))
         else:
-            if not sm or int(sm.group(1)) != remaining or ('messages' in sm.group(0)) != (remaining != 1):
+            if not sm or int(sm.group(1)) != remaining or sm.group(2) != more_words()[remaining != 1]:
                 ctx.fail(inp, 'message %d: suffix %r but %d remain' % (i, sm.group(0) if sm else None, remaining))
                 return
             p = p[:sm.start()]
@@ -596,6 +638,11 @@ def gen_live(rng, kind):
     if kind == 'keywords':
         tk = rng.choice(['plain', 'plain', 'mb'])
         nchunks = rng.choice([2, 3, 4])
+    if kind == 'locale':
+        # an installed bot speaking French / Finnish / German / Italian: translated '(N more messages)'
+        inp.update(lang=rng.choice(LOCALES), mores=True, length=0)
+        tk = rng.choice(['plain', 'mb'])
+        nchunks = rng.choice([3, 4, 11, 12])
     if kind == 'rename':
         # the server renames the bot (longer / shorter nick) after it learnt its hostmask from its own JOIN
         inp.update(private=rng.random() < 0.15, mores=True, length=0)
@@ -614,7 +661,7 @@ def gen_live(rng, kind):
         nchunks = rng.choice([3, 4, 6, 9])
     target_bytes = int(allowed * nchunks * rng.uniform(0.5, 1.0))
     maxword = rng.choice([12, 12, 12, 40, allowed + 50, 3 * allowed])
-    if tk == 'junction' or kind == 'rename':
+    if tk == 'junction' or kind in ('rename', 'locale'):
         maxword = rng.choice([allowed + 50, 2 * allowed])
     words, total = [], 0
     while total < target_bytes:
@@ -630,7 +677,11 @@ def gen_live(rng, kind):
 
 
 # witnesses of the repaired defects C12.F40, F42, F41, F13, F12 (must stay green), then F14's
+SCENARIOS = [{'op': 'scenario', 'scenario': 'long_error', 's': 'EEEEEEEEEEEEEEEEEEEEEEEEEEEEEEEEEEEEEEEEEEEEEEEEEEEEEEEEEEEEEEEEEEEEEEEEEEEEEEEEEEEEEEEEEEEEEEEEEEEEEEEEEEEEEEEEEEEEEEEEEEEEEEEEEEEEEEEEEEEEEEEEEEEEEEEEEEEEEEEEEEEEEEEEEEEEEEEEEEEEEEEEEEEEEEEEEEEEEEEEEEEEEEEEEEEEEEEEEEEEEEEEEEEEEEEEEEEEEEEEEEEEEEEEEEEEEEEEEEEEEEEEEEEEEEEEEEEEEEEEEEEEEEEEEEEEEEEEEEEEEEEEEEEEEEEEEEEEEEEEEEEEEEEEEEEEEEEEEEEEEEEEEEEEEEEEEEEEEEEEEEEEEEEEEEEEEEEEEEEEEEEEEEEEEEEEEEEEEEEEEEEEEEEEEEEEEEEEEEEEEEEEEEEEEEEEEEEEEEEEEEEEEEEEEEEEEEEEEEEEEEEEEEEEEEEEEEEEEEEEEEEEEEEEEEEEEEEEEEEEEEEEEEEEEEEEEEEEEEEEEEEEEEEEEEEEEEEEEEEEEEEEEEEEEEEEEEEEEEEEEEEEEEEEEEEEEEEEEEEEEEEEEEEEEEEEEEEEEEEEEEEEEEEEEEEEEEEEEEEEEEEEEEEEEEEEEEEEEEEEEEEEEEEEEEEEEEEEEEEEEEEEEEEEEEEEEEEEEEEEEEEEEEEEEEEEEEEEEEEEEEEEEEEEEEEEEEEEEEEEEEEEEEEEEEEEEEEEEEEEEEEEEEEEEEEEEEEEEEEEEEEEEEEEEEEEEEEEEEEEEEEEEEEEEEEEEEEEEEEEEEEEEEEEEEEEEEEEEEEEEEEEEEEEEEEEEEEEEEEEEEEEEEEEEEEEEEEEEEEEEEEEEEEEEEEEEEEEEEEEEEEEEEEEEEEEEEEEEEEE'}, {'op': 'scenario', 'scenario': 'shared_userhost', 's': 'AAAAAAAAAAAAAAAAAAAAAAAAAAAAAAAAAAAAAAAAAAAAAAAAAAAAAAAAAAAAAAAAAAAAAAAAAAAAAAAAAAAAAAAAAAAAAAAAAAAAAAAAAAAAAAAAAAAAAAAAAAAAAAAAAAAAAAAAAAAAAAAAAAAAAAAAAAAAAAAAAAAAAAAAAAAAAAAAAAAAAAAAAAAAAAAAAAAAAAAAAAAAAAAAAAAAAAAAAAAAAAAAAAAAAAAAAAAAAAAAAAAAAAAAAAAAAAAAAAAAAAAAAAAAAAAAAAAAAAAAAAAAAAAAAAAAAAAAAAAAAAAAAAAAAAAAAAAAAAAAAAAAAAAAAAAAAAAAAAAAAAAAAAAAAAAAAAAAAAAAAAAAAAAAAAAAAAAAAAAAAAAAAAAAAAAAAAAAAAAAAAAAAAAAAAAAAAAAAAAAAAAAAAAAAAAAAAAAAAAAAAAAAAAAAAAAAAAAAAAAAAAAAAAAAAAAAAAAAAAAAAAAAAAAAAAAAAAAAAAAAAAAAAAAAAAAAAAAAAAAAAAAAAAAAAAAAAAAAAAAAAAAAAAAAAAAAAAAAAAAAAAAAAAAAAAAAAAAAAAAAAAAAAAAAAAAAAAAAAAAAAAAAAAAAAAAAAAAAAAAAAAAAAAAAAAAAAAAAAAAAAAAAAAAAAAAAAAAAAAAAAAAAAAAAAAAAAAAAAAAAAAAAAAAAAAAAAAAAAAAAAAAAAAAAAAAAAAAAAAAAAAAAAAAAAAAAAAAAAAAAAAAAAAAAAAAAAAAAAAAAAAAAAAAAAAAAAAAAAAAAAAAAAAAAAAAAAAAAAAAAAAAAAAAAAAAAAAAAAAAAAAAAAAAAAAAAAAAAAAAAAAAAAAAAAAAAAAAAAAAAAAAAAAAAAAAAAAAAAAAAAAAAAAAAAAAAAAAAAAAAAAAAAAAAAAAAAAAAAAAAAAAAAAAAAAAAAAAAAAAAAAAAAAAAAAAAAAAAAAAAAAAAAAAAAAAAAAAAAAAAAAAAAAAAAAAAAAAAAAAAAAAAAAAAAAAAAAAAAAAAAAAAAAAAAAAAAAAAAAAAAAAAAAAAAAAAAAAAAAAAAAAAAAAAAAAAAAAAAAAAAAAAAAAAAAAAAAAAAAAAAAAAAAAAAAAAAAAAAAAAAAAAAAAAAAAAAAAAAAAAAAAAAAAAAAAAAAAAAAAAAAAAAAAAAAAAAAAAAAAAAAAAAAAAAAAAAAAAAAA', 'other': 'BBBBBBBBBBBBBBBBBBBBBBBBBBBBBBBBBBBBBBBBBBBBBBBBBBBBBBBBBBBBBBBBBBBBBBBBBBBBBBBBBBBBBBBBBBBBBBBBBBBBBBBBBBBBBBBBBBBBBBBBBBBBBBBBBBBBBBBBBBBBBBBBBBBBBBBBBBBBBBBBBBBBBBBBBBBBBBBBBBBBBBBBBBBBBBBBBBBBBBBBBBBBBBBBBBBBBBBBBBBBBBBBBBBBBBBBBBBBBBBBBBBBBBBBBBBBBBBBBBBBBBBBBBBBBBBBBBBBBBBBBBBBBBBBBBBBBBBBBBBBBBBBBBBBBBBBBBBBBBBBBBBBBBBBBBBBBBBBBBBBBBBBBBBBBBBBBBBBBBBBBBBBBBBBBBBBBBBBBBBBBBBBBBBBBBBBBBBBBBBBBBBBBBBBBBBBBBBBBBBBBBBBBBBBBBBBBBBBBBBBBBBBBBBBBBBBBBBBBBBBBBBBBBBBBBBBBBBBBBBBBBBBBBBBBBBBBBBBBBBBBBBBBBBBBBBBBBBBBBBBBBBBBBBBBBBBBBBBBBBBBBBBBBBBBBBBBBBBBBBBBBBBBBBBBBBBBBBBBBBBBBBBBBBBBBBBBBBBBBBBBBBBBBBBBBBBBBBBBBBBBBBBBBBBBBBBBBBBBBBBBBBBBBBBBBBBBBBBBBBBBBBBBBBBBBBBBBBBBBBBBBBBBBBBBBBBBBBBBBBBBBBBBBBBBBBBBBBBBBBBBBBBBBBBBBBBBBBBBBBBBBBBBBBBBBBBBBBBBBBBBBBBBBBBBBBBBBBBBBBBBBBBBBBBBBBBBBBBBBBBBBBBBBBBBBBBBBBBBBBBBBBBBBBBBBBBBBBBBBBBBBBBBBBBBBBBBBBBBBBBBBBBBBBBBBBBBBBBBBBBBBBBBBBBBBBBBBBBBBBBBBBBBBBBBBBBBBBBBBBBBBBBBBBBBBBBBBBBBBBBBBBBBBBBBBBBBBBBBBBBBBBBBBBBBBBBBBBBBBBBBBBBBBBBBBBBBBBBBBBBBBBBBBBBBBBBBBBBBBBBBBBBBBBBBBBBBBBBBBBBBBBBBBBBBBBBBBBBBBBBBBBBBBBBBBBBBBBBBBBBBBBBBBBBBBBBBBBBBBBBBBBBBBBBBBBBBBBBBBBBBBBBBBBBBBBBBBBBBBBBBBBBBBBBBBBBBBBBBBBBBBBBBBBBBBBBBBBBBBBBBBBBBBBBBBBBBBBBBBBB'}, {'op': 'scenario', 'scenario': 'chghost', 'how': 'chghost', 'host': 'a.very.long.cloak.example.org/bot/limnoria', 's': 'yyyyyyyyyyyyyyyyyyyyyyyyyyyyyyyyyyyyyyyyyyyyyyyyyyyyyyyyyyyyyyyyyyyyyyyyyyyyyyyyyyyyyyyyyyyyyyyyyyyyyyyyyyyyyyyyyyyyyyyyyyyyyyyyyyyyyyyyyyyyyyyyyyyyyyyyyyyyyyyyyyyyyyyyyyyyyyyyyyyyyyyyyyyyyyyyyyyyyyyyyyyyyyyyyyyyyyyyyyyyyyyyyyyyyyyyyyyyyyyyyyyyyyyyyyyyyyyyyyyyyyyyyyyyyyyyyyyyyyyyyyyyyyyyyyyyyyyyyyyyyyyyyyyyyyyyyyyyyyyyyyyyyyyyyyyyyyyyyyyyyyyyyyyyyyyyyyyyyyyyyyyyyyyyyyyyyyyyyyyyyyyyyyyyyyyyyyyyyyyyyyyyyyyyyyyyyyyyyyyyyyyyyyyyyyyyyyyyyyyyyyyyyyyyyyyyyyyyyyyyyyyyyyyyyyyyyyyyyyyyyyyyyyyyyyyyyyyyyyyyyyyyyyyyyyyyyyyyyyyyyyyyyyyyyyyyyyyyyyyyyyyyyyyyyyyyyyyyyyyyyyyyyyyyyyyyyyyyyyyyyyyyyyyyyyyyyyyyyyyyyyyyyyyyyyyyyyyyyyyyyyyyyyyyyyyyyyyyyyyyyyyyyyyyyyyyyyyyyyyyyyyyyyyyyyyyyyyyyyyyyyyyyyyyyyyyyyyyyyyyyyyyyyyyyyyyyyyyyyyyyyyyyyyyyyyyyyyyyyyyyyyyyyyyyyyyyyyyyyyyyyyyyyyyyyyyyyyyyyyyyyyyyyyyyyyyyyyyyyyyyyyyyyyyyyyyyyyyyyyyyyyyyyyyyyyyyyyyyyyyyyyyyyyyyyyyyyyyyyyyyyyyyyyyyyyyyyyyyyyyyyyyyyyyyyyyyyyyyyyyyyyyyyyyyyyyyyyyyyyyyyyyyyyyyyyyyyyyyyyyyyyyyyyyyyyyyyyyyyyyyyyyyyyyyyyyyyyyyyyyyyyyyyyyyyyyyyyyyyyyyyyyyyyyyyyyyyyyyyyyyyyyyyyyyyyyyyyyyyyyyyyyyyyyyyyyyyyyyyyyyyyyyyyyyyyyyyyyyyyyyyyyyyyyyyyyyyyyyyyyyyyyyyyyyyyyyyyyyyyyyyyyyyyyyyyyyyyyyyyyyyyyyyyyyyyyyyyyyyyyyyyyyyyyyyyyyyyyyyyyyyyyyyyyyyyyyyyyyyyy'}, {'op': 'scenario', 'scenario': 'chghost', 'how': '396', 'host': 'a.very.long.cloak.example.org/bot/limnoria', 's': 'yyyyyyyyyyyyyyyyyyyyyyyyyyyyyyyyyyyyyyyyyyyyyyyyyyyyyyyyyyyyyyyyyyyyyyyyyyyyyyyyyyyyyyyyyyyyyyyyyyyyyyyyyyyyyyyyyyyyyyyyyyyyyyyyyyyyyyyyyyyyyyyyyyyyyyyyyyyyyyyyyyyyyyyyyyyyyyyyyyyyyyyyyyyyyyyyyyyyyyyyyyyyyyyyyyyyyyyyyyyyyyyyyyyyyyyyyyyyyyyyyyyyyyyyyyyyyyyyyyyyyyyyyyyyyyyyyyyyyyyyyyyyyyyyyyyyyyyyyyyyyyyyyyyyyyyyyyyyyyyyyyyyyyyyyyyyyyyyyyyyyyyyyyyyyyyyyyyyyyyyyyyyyyyyyyyyyyyyyyyyyyyyyyyyyyyyyyyyyyyyyyyyyyyyyyyyyyyyyyyyyyyyyyyyyyyyyyyyyyyyyyyyyyyyyyyyyyyyyyyyyyyyyyyyyyyyyyyyyyyyyyyyyyyyyyyyyyyyyyyyyyyyyyyyyyyyyyyyyyyyyyyyyyyyyyyyyyyyyyyyyyyyyyyyyyyyyyyyyyyyyyyyyyyyyyyyyyyyyyyyyyyyyyyyyyyyyyyyyyyyyyyyyyyyyyyyyyyyyyyyyyyyyyyyyyyyyyyyyyyyyyyyyyyyyyyyyyyyyyyyyyyyyyyyyyyyyyyyyyyyyyyyyyyyyyyyyyyyyyyyyyyyyyyyyyyyyyyyyyyyyyyyyyyyyyyyyyyyyyyyyyyyyyyyyyyyyyyyyyyyyyyyyyyyyyyyyyyyyyyyyyyyyyyyyyyyyyyyyyyyyyyyyyyyyyyyyyyyyyyyyyyyyyyyyyyyyyyyyyyyyyyyyyyyyyyyyyyyyyyyyyyyyyyyyyyyyyyyyyyyyyyyyyyyyyyyyyyyyyyyyyyyyyyyyyyyyyyyyyyyyyyyyyyyyyyyyyyyyyyyyyyyyyyyyyyyyyyyyyyyyyyyyyyyyyyyyyyyyyyyyyyyyyyyyyyyyyyyyyyyyyyyyyyyyyyyyyyyyyyyyyyyyyyyyyyyyyyyyyyyyyyyyyyyyyyyyyyyyyyyyyyyyyyyyyyyyyyyyyyyyyyyyyyyyyyyyyyyyyyyyyyyyyyyyyyyyyyyyyyyyyyyyyyyyyyyyyyyyyyyyyyyyyyyyyyyyyyyyyyyyyyyyyyyyyyyyyyyyyyyyyyyyyyyyyyyyyyyyyyy'}]
+
 LIVE_CORPUS = [
+    {'op': 'live', 'kind': 'corpus', 'botprefix': 'test!user@host.example', 'nick': 'alice', 'chan': '#chan', 'private': False, 'prefixNick': True, 'noticePriv': True, 'mores': True, 'length': 0, 'maximum': 50, 'instant': 1, 'number': 1, 's': 'yyyyyyyyyyyyyyyyyyyyyyyyyyyyyyyyyyyyyyyyyyyyyyyyyyyyyyyyyyyyyyyyyyyyyyyyyyyyyyyyyyyyyyyyyyyyyyyyyyyyyyyyyyyyyyyyyyyyyyyyyyyyyyyyyyyyyyyyyyyyyyyyyyyyyyyyyyyyyyyyyyyyyyyyyyyyyyyyyyyyyyyyyyyyyyyyyyyyyyyyyyyyyyyyyyyyyyyyyyyyyyyyyyyyyyyyyyyyyyyyyyyyyyyyyyyyyyyyyyyyyyyyyyyyyyyyyyyyyyyyyyyyyyyyyyyyyyyyyyyyyyyyyyyyyyyyyyyyyyyyyyyyyyyyyyyyyyyyyyyyyyyyyyyyyyyyyyyyyyyyyyyyyyyyyyyyyyyyyyyyyyyyyyyyyyyyyyyyyyyyyyyyyyyyyyyyyyyyyyyyyyyyyyyyyyyyyyyyyyyyyyyyyyyyyyyyyyyyyyyyyyyyyyyyyyyyyyyyyyyyyyyyyyyyyyyyyyyyyyyyyyyyyyyyyyyyyyyyyyyyyyyyyyyyyyyyyyyyyyyyyyyyyyyyyyyyyyyyyyyyyyyyyyyyyyyyyyyyyyyyyyyyyyyyyyyyyyyyyyyyyyyyyyyyyyyyyyyyyyyyyyyyyyyyyyyyyyyyyyyyyyyyyyyyyyyyyyyyyyyyyyyyyyyyyyyyyyyyyyyyyyyyyyyyyyyyyyyyyyyyyyyyyyyyyyyyyyyyyyyyyyyyyyyyyyyyyyyyyyyyyyyyyyyyyyyyyyyyyyyyyyyyyyyyyyyyyyyyyyyyyyyyyyyyyyyyyyyyyyyyyyyyyyyyyyyyyyyyyyyyyyyyyyyyyyyyyyyyyyyyyyyyyyyyyyyyyyyyyyyyyyyyyyyyyyyyyyyyyyyyyyyyyyyyyyyyyyyyyyyyyyyyyyyyyyyyyyyyyyyyyyyyyyyyyyyyyyyyyyyyyyyyyyyyyyyyyyyyyyyyyyyyyyyyyyyyyyyyyyyyyyyyyyyyyyyyyyyyyyyyyyyyyyyyyyyyyyyyyyyyyyyyyyyyyyyyyyyyyyyyyyyyyyyyyyyyyyyyyyyyyyyyyyyyyyyyyyyyyyyyyyyyyyyyyyyyyyyyyyyyyyyyyyyyyyyyyyyyyyyyyyyyyyyyyyyyyyyyyyyyyyyyyyyyyyyyyyyyyyyyyyyyyyyyyyyyyyyyyyyyyyyyyyyyyyyyyyyyyyyyyyyyyyyyyyyyyyyyyyyyyyyyyyyyyyyyyyyyyyyyyyyyyyyyyyyyyyyyyyyyyyyyyyyyyyyyyyyyyyyyyyyyyyyyyyyyyyyyyyyyyyyyyyyyyyyyyyyyyyyyyyyyyyyyyyyyyyyyyyyyyyyyyyyyyyyyyyyyyyyyyyyyyyyyyyyyyyyyyyyyyyyyyyyyyyyyyyyyyyyyyyyyyyyyyyyyyyyyyyyyyyyyyyyyyyyyyyyyyyyyyyyyyyyyyyyyyyyyyyyyyyyyyyyyyyyyyyyyyyyyyyyyyyyyyyyyyyyyyyyyyyyyyyyyyyyyyyyyyyyyyyyyyyyyyyyyyyyyyyyyyyyyyyyyyyyyyyyyyyyyyyyyyyyyyyyyyyyyyyyyyyyyyyyyyyyyyyyyyyyyyyyyyyyyyyyyyyyyyyyyyyyyyyyyyyyyyyyyyyyyyyyyyyyyyyyyyyyyyyyyyyyyyyyyyyyyyyyyyyyyyyyyyyyyyyyyyyyyyyyyyyyyyyyyyyyyyyyyyyyyyyyyyyyyyyyyyyyyyyyyyyyyyyyyyyyyyyyyyyyyyyyyyyyyyyyyyyyyyyyyyyyyyyyyyyyyyyyyyyyyyyyyyyyyyyyyyyyyyyyyyyyyyyyyyyyyyyyyyyyyyyyyyyyyyyyyyyyyyyyyyyyyyyyyyyyyyyyyyyyyyyyyyyyyyyyyyyyyyyyyyyyyyyyyyyyyyyyyyyyyyyyyyyyyyyyyyyyyyyyyyyyyyyyyyyyyyyyyyyyyyyyyyyyyyyyyyyyyyyyyyyyyyyyyyyyyyyyyyyyyyyyyyyyyyyyyyyyyyyyyyyyyyyyyyyyyyyyyyyyyyyyyyyyyyyyyyyyyyyyyyyyyyyyyyyyyyyyyyyyyyyyyyyyyyyyyyyyyyyyyyyyyyyyyyyyyyyyyyyyyyyyyyyyyyyyyyyyyyyyyyyyyyyyyyyyyyyyyyyyyyyyyyyyyyyyyyyyyyyyyyyyyyyyyyyyyyyyyyyyyyyyyyyyyyyyyyyyyyyyyyyyyyyyyyyyyyyyyyyyyyyyyyyyyyyyyyyyyyyyyyyyyyyyyyyyyyyyyyyyyyyyyyyyyyyyyyyyyyyyyyyyyyyyyyyyyyyyyyyyyyyyyyyyyyyyyyyyyyyyyyyyyyyyyyyyyyyyyyyyyyyyyyyyyyyyyyyyyyyyyyyyyyyyyyyyyyyyyyyyyyyyyyyyyyyyyyyyyyyyyyyyyyyyyyyyyyyyyyyyyyyyyyyyyyyyyyyyyyyyyyyyyyyyyyyyyyyyyyyyyyyyyyyyyyyyyyyyyyyyyyyyyyyyyyyyyyyyyyyyyyyyyyyyyyyyyyyyyyyyyyyyyyyyyyyyyyyyyyyyyyyyyyyyyyyyyyyyyyyyyyyyyyyyyyyyyyyyyyyyyyyyyyyyyyyyyyyyyyyyyyyyyyyyyyyyyyyyyyyyyyyyyyyyyyyyyyyyyyyyyyyyyyyyyyyyyyyyyyyyyyyyyyyyyyyyyyyyyyyyyyyyyyyyyyyyyyyyyyyyyyyyyyyyyyyyyyyyyyyyyyyyyyyyyyyyyyyyyyyyyyyyyyyyyyyyyyyyyyyyyyyyyyyyyyyyyyyyyyyyyyyyyyyyyyyyyyyyyyyyyyyyyyyyyyyyyyyyyyyyyyyyyyyyyyyyyyyyyyyyyyyyyyyyyyyyyyyyyyyyyyyyyyyyyyyyyyyyyyyyyyyyyyyyyyyyyyyyyyyyyyyyyyyyyyyyyyyyyyyyyyyyyyyyyyyyyyyyyyyyyyyyyyyyyyyyyyyyyyyyyyyyyyyyyyyyyyyyyyyyyyyyyyyyyyyyyyyyyyyyyyyyyyyyyyyyyyyyyyyyyyyyyyyyyyyyyyyyyyyyyyyyyyyyyyyyyyyyyyyyyyyyyyyyyyyyyyyyyyyyyyyyyyyyyyyyyyyyyyyyyyyyyyyyyyyyyyyyyyyyyyyyyyyyyyyyyyyyyyyyyyyyyyyyyyyyyyyyyyyyyyyyyyyyyyyyyyyyyyyyyyyyyyyyyyyyyyyyyyyyyyyyyyyyyyyyyyyyyyyyyyyyyyyyyyyyyyyyyyyyyyyyyyyyyyyyyyyyyyyyyyyyyyyyyyyyyyyyyyyyyyyyyyyyyyyyyyyyyyyyyyyyyyyyyyyyyyyyyyyyyyyyyyyyyyyyyyyyyyyyyyyyyyyyyyyyyyyyyyyyyyyyyyyyyyyyyyyyyyyyyyyyyyyyyyyyyyyyyyyyyyyyyyyyyyyyyyyyyyyyyyyyyyyyyyyyyyyyyyyyyyyyyyyyyyyyyyyyyyyyyyyyyyyyyyyyyyyyyyyyyyyyyyyyyyyyyyyyyyyyyyyyyyyyyyyyyyyyyyyyyyyyyyyyyyyyyyyyyyyyyyyyyyyyyyyyyyyyyyyyyyyyyyyyyyyyyyyyyyyyyyyyyyyyyyyyyyyyyyyyyyyyyyyyyyyyyyyyyyyyyyyyyyyyyyyyyyyyyyyyyyyyyyyyyyyyyyyyyyyyyyyyyyyyyyyyyyyyyyyyyyyyyyyyyyyyyyyyyyyyyyyyyyyyyyyyyyyyyyyyyyyyyyyyyyyyyyyyyyyyyyyyyyyyyyyyyyyyyyyyyyyyyyyyyyyyyyyyyyyyyyyyyyyyyyyyyyyyyyyyyyyyyyyyyyyyyyyyyyyyyyyyyyyyyyyyyyyyyyyyyyyyyyyyyyyyyyyyyyyyyyyyyyyyyyyyyyyyyyyyyyyyyyyyyyyyyyyyyyyyyyyyyyyyyyyyyyyyyyyyyyyyyyyyyyyyyyyyyyyyyyyyyyyyyyyyyyyyyyyyyyyyyyyyyyyyyyyyyyyyyyyyyyyyyyyyyyyyyyyyyyyyyyyyyyyyyyyyyyyyyyyyyyyyyyyyyyyyyyyyyyyyyyyyyyyyyyyyyyyyyyyyyyyyyyyyyyyyyyyyyyyyyyyyyyyyyyyyyyyyyyyyyyyyyyyyyyyyyyyyyyyyyyyyyyyyyyyyyyyyyyyyyyyyyyyyyyyyyyyyyyyyyyyyyyyyyyyyyyyyyyyyyyyyyyyyyyyyyyyyyyyyyyyyyyyyyyyyyyyyyyyyyyyyyyyyyyyyyyyyyyyyyyyyyyyyyyyyyyyyyyyyyyyyyyyyyyyyyyyyyyyyyyyyyyyyyyyyyyyyyyyyyyyyyyyyyyyyyyyyyyyyyyyyyyyyyyyyyyyyyyyyyyyyyyyyyyyyyyyyyyyyyyyyyyyyyyyyyyyyyyyyyyyyyyyyyyyyyyyyyyyyyyyyyyyyyyyyyyyyyyyyyyyyyyyyyyyyyyyyyyyyyyyyyyyyyyyyyyyyyyyyyyyyyyyyyyyyyyyyyyyyyyyyyyyyyyyyyyyyyyyyyyyyyyyyyyyyyyyyyyyyyyyyyyyyyyyyyyyyyyyyyyyyyyyyyyyyyyyyyyyyyyyyyyyyyyyyyyyyyyyyyyyyyyyyyyyyyyyyyyyyyyyyyyyyyyyyyyyyyyyyyyyyyyyyyyyyyyyyyyyyyyyyyyyyyyyyyyyyyyyyyyyyyyyyyyyyyyyyyyyyyyyyyyyyyyyyyyyyyyyyyyyyyyyyyyyyyyyyyyyyyyyyyyyyyyyyyyyyyyyyyyyyyyyyyyyyyyyyyyyyyyyyyyyyyyyyyyyyyyyyyyyyyyyyyyyyyyyyyyyyyyyyyyyyyyyyyyyyyyyyyyyyyyyyyyyyyyyyyyyyyyyyyyyyyyyyyyyyyyyyyyyyyyyyyyyyyyyyyyyyyyyyyyyyyyyyyyyyyyyyyyyyyyyyyyyyyyyyyyyyyyyyyyyyyyyyyyyyyyyyyyyyyyyyyyyyyyyyyyyyyyyyyyyyyyyyyyyyyyyyyyyyyyyyyyyyyyyyyyyyyyyyyyyyyyyyyyyyyyyyyyyyyyyyyyyyyyyyyyyyyyyyyyyyyyyyyyyyyyyyyyyyyyyyyyyyyyyyyyyyyyyyyyyyyyyyyyyyyyyyyyyyyyyyyyyyyyyyyyyyyyyyyyyyyyyyyyyyyyyyyyyyyyyyyyyyyyyyyyyyyyyyyyyyyyyyyyyyyyyyyyyyyyyyyyyyyyyyyyyyyyyyyyyyyyyyyyyyyyyyyyyyyyyyyyyyyyyyyyyyyyyyyyyyyyyyyyyyyyyyyyyyyyyyyyyyyyyyyyyyyyyyyyyyyyyyyyyyyyyyyyyyyyyyyyyyyyyyyyyyyyyyyyyyyyyyyyyyyyyyyyyyyyyyyyyyyyyyyyyyyyyyyyyyyyyyyyyyyyyyyyyyyyyyyyyyyyyyyyyyyyyyyyyyyyyyyyyyyyyyyyyyyyyyyyyyyyyyyyyyyyyyyyyyyyyyyyyyyyyyyyyyyyyyyyyyyyyyyyyyyyyyyyyyyyyyyyyyyyyyyyyyyyyyyyyyyyyyyyyyyyyyyyyyyyyyyyyyyyyyyyyyyyyyyyyyyyyyyyyyyyyyyyyyyyyyyyyyyyyyyyyyyyyyyyyyyyyyyyyyyyyyyyyyyyyyyyyyyyyyyyyyyyyyyyyyyyyyyyyyyyyyyyyyyyyyyyyyyyyyyyyyyyyyyyyyyyyyyyyyyyyyyyyyyyyyyyyyyyyyyyyyyyyyyyyyyyyyyyyyyyyyyyyyyyyyyyyyyyyyyyyyyyyyyyyyyyyyyyyyyyyyyyyyyyyyyyyyyyyyyyyyyyyyyyyyyyyyyyyyyyyyyyyyyyyyyyyyyyyyyyyyyyyyyyyyyyyyyyyyyyyyyyyyyyyyyyyyyyyyyyyyyyyyyyyyyyyyyyyyyyyyyyyyyyyyyyyyyyyyyyyyyyyyyyyyyyyyyyyyyyyyyyyyyyyyyyyyyyyyyyyyyyyyyyyyyyyyyyyyyyyyyyyyyyyyyyyyy', 'lang': 'fr'},   # old witnesses of C12.F45 (repaired): French / Finnish '(N more messages)'
+    {'op': 'live', 'kind': 'corpus', 'botprefix': 'test!user@host.example', 'nick': 'alice', 'chan': '#chan', 'private': False, 'prefixNick': True, 'noticePriv': True, 'mores': True, 'length': 0, 'maximum': 50, 'instant': 1, 'number': 1, 's': 'yyyyyyyyyyyyyyyyyyyyyyyyyyyyyyyyyyyyyyyyyyyyyyyyyyyyyyyyyyyyyyyyyyyyyyyyyyyyyyyyyyyyyyyyyyyyyyyyyyyyyyyyyyyyyyyyyyyyyyyyyyyyyyyyyyyyyyyyyyyyyyyyyyyyyyyyyyyyyyyyyyyyyyyyyyyyyyyyyyyyyyyyyyyyyyyyyyyyyyyyyyyyyyyyyyyyyyyyyyyyyyyyyyyyyyyyyyyyyyyyyyyyyyyyyyyyyyyyyyyyyyyyyyyyyyyyyyyyyyyyyyyyyyyyyyyyyyyyyyyyyyyyyyyyyyyyyyyyyyyyyyyyyyyyyyyyyyyyyyyyyyyyyyyyyyyyyyyyyyyyyyyyyyyyyyyyyyyyyyyyyyyyyyyyyyyyyyyyyyyyyyyyyyyyyyyyyyyyyyyyyyyyyyyyyyyyyyyyyyyyyyyyyyyyyyyyyyyyyyyyyyyyyyyyyyyyyyyyyyyyyyyyyyyyyyyyyyyyyyyyyyyyyyyyyyyyyyyyyyyyyyyyyyyyyyyyyyyyyyyyyyyyyyyyyyyyyyyyyyyyyyyyyyyyyyyyyyyyyyyyyyyyyyyyyyyyyyyyyyyyyyyyyyyyyyyyyyyyyyyyyyyyyyyyyyyyyyyyyyyyyyyyyyyyyyyyyyyyyyyyyyyyyyyyyyyyyyyyyyyyyyyyyyyyyyyyyyyyyyyyyyyyyyyyyyyyyyyyyyyyyyyyyyyyyyyyyyyyyyyyyyyyyyyyyyyyyyyyyyyyyyyyyyyyyyyyyyyyyyyyyyyyyyyyyyyyyyyyyyyyyyyyyyyyyyyyyyyyyyyyyyyyyyyyyyyyyyyyyyyyyyyyyyyyyyyyyyyyyyyyyyyyyyyyyyyyyyyyyyyyyyyyyyyyyyyyyyyyyyyyyyyyyyyyyyyyyyyyyyyyyyyyyyyyyyyyyyyyyyyyyyyyyyyyyyyyyyyyyyyyyyyyyyyyyyyyyyyyyyyyyyyyyyyyyyyyyyyyyyyyyyyyyyyyyyyyyyyyyyyyyyyyyyyyyyyyyyyyyyyyyyyyyyyyyyyyyyyyyyyyyyyyyyyyyyyyyyyyyyyyyyyyyyyyyyyyyyyyyyyyyyyyyyyyyyyyyyyyyyyyyyyyyyyyyyyyyyyyyyyyyyyyyyyyyyyyyyyyyyyyyyyyyyyyyyyyyyyyyyyyyyyyyyyyyyyyyyyyyyyy', 'lang': 'fi'},
     {'op': 'live', 'kind': 'corpus', 'botprefix': 'LongerBotNick_123456!user@host.example', 'nick': 'alice', 'chan': '#chan', 'private': False, 'prefixNick': True, 'noticePriv': True, 'mores': True, 'length': 0, 'maximum': 50, 'instant': 1, 'number': 1, 's': 'yyyyyyyyyyyyyyyyyyyyyyyyyyyyyyyyyyyyyyyyyyyyyyyyyyyyyyyyyyyyyyyyyyyyyyyyyyyyyyyyyyyyyyyyyyyyyyyyyyyyyyyyyyyyyyyyyyyyyyyyyyyyyyyyyyyyyyyyyyyyyyyyyyyyyyyyyyyyyyyyyyyyyyyyyyyyyyyyyyyyyyyyyyyyyyyyyyyyyyyyyyyyyyyyyyyyyyyyyyyyyyyyyyyyyyyyyyyyyyyyyyyyyyyyyyyyyyyyyyyyyyyyyyyyyyyyyyyyyyyyyyyyyyyyyyyyyyyyyyyyyyyyyyyyyyyyyyyyyyyyyyyyyyyyyyyyyyyyyyyyyyyyyyyyyyyyyyyyyyyyyyyyyyyyyyyyyyyyyyyyyyyyyyyyyyyyyyyyyyyyyyyyyyyyyyyyyyyyyyyyyyyyyyyyyyyyyyyyyyyyyyyyyyyyyyyyyyyyyyyyyyyyyyyyyyyyyyyyyyyyyyyyyyyyyyyyyyyyyyyyyyyyyyyyyyyyyyyyyyyyyyyyyyyyyyyyyyyyyyyyyyyyyyyyyyyyyyyyyyyyyyyyyyyyyyyyyyyyyyyyyyyyyyyyyyyyyyyyyyyyyyyyyyyyyyyyyyyyyyyyyyyyyyyyyyyyyyyyyyyyyyyyyyyyyyyyyyyyyyyyyyyyyyyyyyyyyyyyyyyyyyyyyyyyyyyyyyyyyyyyyyyyyyyyyyyyyyyyyyyyyyyyyyyyyyyyyyyyyyyyyyyyyyyyyyyyyyyyyyyyyyyyyyyyyyyyyyyyyyyyyyyyyyyyyyyyyyyyyyyyyyyyyyyyyyyyyyyyyyyyyyyyyyyyyyyyyyyyyyyyyyyyyyyyyyyyyyyyyyyyyyyyyyyyyyyyyyyyyyyyyyyyyyyyyyyyyyyyyyyyyyyyyyyyyyyyyyyyyyyyyyyyyyyyyyyyyyyyyyyyyyyyyyyyyyyyyyyyyyyyyyyyyyyyyyyyyyyyyyyyyyyyyyyyyyyyyyyyyyyyyyyyyyyyyyyyyyyyyyyyyyyyyyyyyyyyyyyyyyyyyyyyyyyyyyyyyyyyyyyyyyyyyyyyyyyyyyyyyyyyyyyyyyyyyyyyyyyyyyyyyyyyyyyyyyyyyyyyyyyyyyyyyyyyyyyyyyyyyyyyyyyyyyyyyyyyyyyyyyyyyyyyyyyyyyyyyyyyyyyyyyyyyyyyyyyyyyyyyyyyyyyyyyyyyyyyyyyyyyyyyyyyyyyyyyyyyyyyyyyyyyyyyyyyyyyyyyyyyyyyyyyyyyyyyyyyyyyyyyyyyyyyyyyyyyyyyyyyyyyyyyyyyyyyyyyyyyyyyyyyyyyyyyyyyyyyyyyyyyyyyyyyyyyyyyyyyyyyyyyyyyyyyyyyyyyyyyyyyyyyyyyyyyyyyyyyyyyyyyyyyyyyyyyyyyyyyyyyyyyyyyyyyyyyyyyyyyyyyyyyyyyyyyyyyyyyyyyyyyyyyyyyyyyyyyyyyyyyyyyyyyyyyyyyyyyyyyyyyyyy', 'rename': ['b', 'LongerBotNick_123456']},   # the bot is renamed to a longer nick after its own JOIN: chunks must be sized for the new hostmask
     {'op': 'live', 'kind': 'corpus', 'botprefix': 'LongerBotNick_123456!user@host.example', 'nick': 'alice', 'chan': '#chan', 'private': False, 'prefixNick': True, 'noticePriv': True, 'mores': True, 'length': 0, 'maximum': 50, 'instant': 1, 'number': 1, 's': 'http://example.org/qqqqqqqqqqqqqqqqqqqqqqqqqqqqqqqqqqqqqqqqqqqqqqqqqqqqqqqqqqqqqqqqqqqqqqqqqqqqqqqqqqqqqqqqqqqqqqqqqqqqqqqqqqqqqqqqqqqqqqqqqqqqqqqqqqqqqqqqqqqqqqqqqqqqqqqqqqqqqqqqqqqqqqqqqqqqqqqqqqqqqqqqqqqqqqqqqqqqqqqqqqqqqqqqqqqqqqqqqqqqqqqqqqqqqqqqqqqqqqqqqqqqqqqqqqqqqqqqqqqqqqqqqqqqqqqqqqqqqqqqqqqqqqqqqqqqqqqqqqqqqqqqqqqqqqqqqqqqqqqqqqqqqqqqqqqqqqqqqqqqqqqqqqqqqqqqqqqqqqqqqqqqqqqqqqqqqqqqqqqqqqqqqqqqqqqqqqqqqqqqqqqqqqqqqqqqqqqqqqqqqqqqqqqqqqqqqqqqqqqqqqqqqqqqqqqqqqqqqqqqqqqqqqqqqqqqqqqqqqqqqqqqqqqqqqqqqqqqqqqqqqqqqqqqqqqqqqqqqqqqqqqqqqqqqqqqqqqqqqqqqqqqqqqqqqqqqqqqqqqqqqqqqqqqqqqqqqqqqqqqqqqqqqqqqqqqqqqqqqqq http://example.org/qqqqqqqqqqqqqqqqqqqqqqqqqqqqqqqqqqqqqqqqqqqqqqqqqqqqqqqqqqqqqqqqqqqqqqqqqqqqqqqqqqqqqqqqqqqqqqqqqqqqqqqqqqqqqqqqqqqqqqqqqqqqqqqqqqqqqqqqqqqqqqqqqqqqqqqqqqqqqqqqqqqqqqqqqqqqqqqqqqqqqqqqqqqqqqqqqqqqqqqqqqqqqqqqqqqqqqqqqqqqqqqqqqqqqqqqqqqqqqqqqqqqqqqqqqqqqqqqqqqqqqqqqqqqqqqqqqqqqqqqqqqqqqqqqqqqqqqqqqqqqqqqqqqqqqqqqqqqqqqqqqqqqqqqqqqqqqqqqqqqqqqqqqqqqqqqqqqqqqqqqqqqqqqqqqqqqqqqqqqqqqqqqqqqqqqqqqqqqqqqqqqqqqqqqqqqqqqqqqqqqqqqqqqqqqqqqqqqqqqqqqqqqqqqqqqqqqqqqqqqqqqqqqqqqqqqqqqqqqqqqqqqqqqqqqqqqqqqqqqqqqqqqqqqqqqqqqqqqqqqqqqqqqqqqqqqqqqqqqqqqqqqqqqqqqqqqqqqqqqqqqqqqqqqqqqqqqqqqqqqqqqqqqqqqqqqqqqqqqqq http://example.org/qqqqqqqqqqqqqqqqqqqqqqqqqqqqqqqqqqqqqqqqqqqqqqqqqqqqqqqqqqqqqqqqqqqqqqqqqqqqqqqqqqqqqqqqqqqqqqqqqqqqqqqqqqqqqqqqqqqqqqqqqqqqqqqqqqqqqqqqqqqqqqqqqqqqqqqqqqqqqqqqqqqqqqqqqqqqqqqqqqqqqqqqqqqqqqqqqqqqqqqqqqqqqqqqqqqqqqqqqqqqqqqqqqqqqqqqqqqqqqqqqqqqqqqqqqqqqqqqqqqqqqqqqqqqqqqqqqqqqqqqqqqqqqqqqqqqqqqqqqqqqqqqqqqqqqqqqqqqqqqqqqqqqqqqqqqqqqqqqqqqqqqqqqqqqqqqqqqqqqqqqqqqqqqqqqqqqqqqqqqqqqqqqqqqqqqqqqqqqqqqqqqqqqqqqqqqqqqqqqqqqqqqqqqqqqqqqqqqqqqqqqqqqqqqqqqqqqqqqqqqqqqqqqqqqqqqqqqqqqqqqqqqqqqqqqqqqqqqqqqqqqqqqqqqqqqqqqqqqqqqqqqqqqqqqqqqqqqqqqqqqqqqqqqqqqqqqqqqqqqqqqqqqqqqqqqqqqqqqqqqqqqqqqqqqqqqqqqqqqqq', 'rename': ['LongerBotNick_1', 'x', 'LongerBotNick_123456']},
     {'op': 'live', 'kind': 'corpus', 'botprefix': 'test!user@host.example', 'nick': 'alice', 'chan': '#chan', 'private': False, 'prefixNick': True, 'noticePriv': True, 'mores': True, 'length': 0, 'maximum': 50, 'instant': 1, 'number': 1, 's': 'w000w000w000w000w000w000w000w000w000w000w000w000w000w000w000w000w000w000w000w000 w001w001w001w001w001w001w001w001w001w001w001w001w001w001w001w001w001w001w001w001 w002w002w002w002w002w002w002w002w002w002w002w002w002w002w002w002w002w002w002w002 w003w003w003w003w003w003w003w003w003w003w003w003w003w003w003w003w003w003w003w003 w004w004w004w004w004w004w004w004w004w004w004w004w004w004w004w004w004w004w004w004 w005w005w005w005w005w005w005w005w005w005w005w005w005w005w005w005w005w005w005w005 w006w006w006w006w006w006w006w006w006w006w006w006w006w006w006w006w006w006w006w006 w007w007w007w007w007w007w007w007w007w007w007w007w007w007w007w007w007w007w007w007 w008w008w008w008w008w008w008w008w008w008w008w008w008w008w008w008w008w008w008w008 w009w009w009w009w009w009w009w009w009w009w009w009w009w009w009w009w009w009w009w009 w010w010w010w010w010w010w010w010w010w010w010w010w010w010w010w010w010w010w010w010 w011w011w011w011w011w011w011w011w011w011w011w011w011w011w011w011w011w011w011w011 w012w012w012w012w012w012w012w012w012w012w012w012w012w012w012w012w012w012w012w012 w013w013w013w013w013w013w013w013w013w013w013w013w013w013w013w013w013w013w013w013 w014w014w014w014w014w014w014w014w014w014w014w014w014w014w014w014w014w014w014w014 w015w015w015w015w015w015w015w015w015w015w015w015w015w015w015w015w015w015w015w015 w016w016w016w016w016w016w016w016w016w016w016w016w016w016w016w016w016w016w016w016 w017w017w017w017w017w017w017w017w017w017w017w017w017w017w017w017w017w017w017w017 w018w018w018w018w018w018w018w018w018w018w018w018w018w018w018w018w018w018w018w018 w019w019w019w019w019w019w019w019w019w019w019w019w019w019w019w019w019w019w019w019 w020w020w020w020w020w020w020w020w020w020w020w020w020w020w020w020w020w020w020w020 w021w021w021w021w021w021w021w021w021w021w021w021w021w021w021w021w021w021w021w021 w022w022w022w022w022w022w022w022w022w022w022w022w022w022w022w022w022w022w022w022 w023w023w023w023w023w023w023w023w023w023w023w023w023w023w023w023w023w023w023w023 w024w024w024w024w024w024w024w024w024w024w024w024w024w024w024w024w024w024w024w024 w025w025w025w025w025w025w025w025w025w025w025w025w025w025w025w025w025w025w025w025 w026w026w026w026w026w026w026w026w026w026w026w026w026w026w026w026w026w026w026w026 w027w027w027w027w027w027w027w027w027w027w027w027w027w027w027w027w027w027w027w027 w028w028w028w028w028w028w028w028w028w028w028w028w028w028w028w028w028w028w028w028 w029w029w029w029w029w029w029w029w029w029w029w029w029w029w029w029w029w029w029w029 w030w030w030w030w030w030w030w030w030w030w030w030w030w030w030w030w030w030w030w030 w031w031w031w031w031w031w031w031w031w031w031w031w031w031w031w031w031w031w031w031 w032w032w032w032w032w032w032w032w032w032w032w032w032w032w032w032w032w032w032w032 w033w033w033w033w033w033w033w033w033w033w033w033w033w033w033w033w033w033w033w033 w034w034w034w034w034w034w034w034w034w034w034w034w034w034w034w034w034w034w034w034 w035w035w035w035w035w035w035w035w035w035w035w035w035w035w035w035w035w035w035w035 w036w036w036w036w036w036w036w036w036w036w036w036w036w036w036w036w036w036w036w036 w037w037w037w037w037w037w037w037w037w037w037w037w037w037w037w037w037w037w037w037 w038w038w038w038w038w038w038w038w038w038w038w038w038w038w038w038w038w038w038w038 w039w039w039w039w039w039w039w039w039w039w039w039w039w039w039w039w039w039w039w039', 'ops': 'NA'},   # old witness of C12.F44 (repaired): zed's `more alice`, then alice's own `more`
@@ -676,6 +727,75 @@ def check_live(ctx, inp, ircutils, kind=None):
     live_oracle(ctx, inp, public, owner_rounds(inp, rounds), ircutils)
 
 
+# --------------------------------------------------------------------------
+# boundary scenarios outside the reply()/more model (gap audit): each returns a failure detail or None
+def scenario(inp):
+    b = bot()
+    irc, conf, ircmsgs = b['irc'], b['conf'], b['ircmsgs']
+    import supybot.callbacks as callbacks
+    callbacks.NestedCommandsIrcProxy._mores.clear()
+    set_language(None)
+    for name, val in (('mores', True), ('withNickPrefix', True), ('inPrivate', False), ('withNotice', False)):
+        getattr(conf.supybot.reply, name).setValue(val)
+    conf.supybot.reply.mores.length.setValue(0)
+    conf.supybot.reply.mores.instant.setValue(1)
+    conf.supybot.plugins.Misc.mores.setValue(1)
+    irc.nick, irc.prefix = 'test', 'test!user@host.example'
+    b['n'] += 1
+    head = ':' + irc.prefix + ' '
+    drain(irc)
+    if inp['scenario'] == 'long_error':
+        # irc.error() is a reply too, but it is never split: _truncateMsg cuts it, the relayed line is still too long
+        if 'Err' not in b:
+            class Err(callbacks.Plugin):
+                text = ''
+
+                def fail(self, irc, msg, args):
+                    irc.error(Err.text)
+            Err.__module__ = 'Err'
+            irc.addCallback(Err(irc))
+            b['Err'] = Err
+        b['Err'].text = inp['s']
+        irc.feedMsg(ircmsgs.privmsg('#chan', '@fail', prefix='alice!a%d@h.example' % b['n']))
+        out = drain(irc)
+        shown = ''.join(re.sub(r'^(PRIVMSG|NOTICE) \S+ :(alice: )?(Error: )?', '', m)[:-2] for m in out)
+        over = [len((head + m).encode()) for m in out if len((head + m).encode()) > 512]
+        if over or dews(inp['s']) not in dews(shown):
+            return 'error reply: relayed line of %r bytes, %d of %d characters of the text shown' % (over, len(dews(shown)), len(dews(inp['s'])))
+    elif inp['scenario'] == 'shared_userhost':
+        # _mores is keyed by user@host: two users behind the same gateway share one pending list
+        em = b['Emit']
+        em.kw = {}
+        mask = 'web@gateway%d.example' % b['n']
+        em.payload = inp['s']
+        irc.feedMsg(ircmsgs.privmsg('#chan', '@emit', prefix='alice!' + mask))
+        drain(irc)
+        em.payload = inp['other']
+        irc.feedMsg(ircmsgs.privmsg('#chan', '@emit', prefix='bob!' + mask))
+        drain(irc)
+        irc.feedMsg(ircmsgs.privmsg('#chan', '@more', prefix='alice!' + mask))
+        out = drain(irc)
+        if not out or inp['s'][-40:-30] in inp['other'] or not any(x in out[0] for x in (inp['s'][500:520],)) :
+            return "alice's `more` after bob's reply (same user@host) gives %r" % (out[0][:60] if out else None)
+    elif inp['scenario'] == 'chghost':
+        # the server changes the bot's visible host (CHGHOST / 396): irc.prefix keeps the old one
+        irc.feedMsg(ircmsgs.IrcMsg(':test!user@host.example JOIN #chan'))
+        if inp['how'] == 'chghost':
+            irc.feedMsg(ircmsgs.IrcMsg(':test!user@host.example CHGHOST user %s' % inp['host']))
+        else:
+            irc.feedMsg(ircmsgs.IrcMsg(':irc.example 396 test %s :is now your visible host' % inp['host']))
+        drain(irc)
+        head = ':test!user@%s ' % inp['host']
+        b['Emit'].kw = {}
+        b['Emit'].payload = inp['s']
+        irc.feedMsg(ircmsgs.privmsg('#chan', '@emit', prefix='alice!a%d@h.example' % b['n']))
+        out = drain(irc)
+        over = [len((head + m).encode()) for m in out if len((head + m).encode()) > 512]
+        if over:
+            return 'after the host change irc.prefix is %r; relayed line of %r bytes' % (irc.prefix, over)
+    return None
+
+
 def owner_rounds(inp, rounds):
     """the rounds of the reply's owner: the first answer and the outputs of her own `more` commands"""
     if 'ops' not in inp:
@@ -690,10 +810,15 @@ def run(ctx):
     ircutils, utils = mods()
     for inp in LIVE_CORPUS:          # witnesses of the repaired defects first
         check_live(ctx, inp, ircutils)
+    for inp in SCENARIOS:            # boundary scenarios (known findings F46-F48)
+        ctx.case('scenario-' + inp['scenario'], inp)
+        d = scenario(inp)
+        if d:
+            ctx.fail(inp, d)
     run_unit(ctx, unit_inputs(ctx), ircutils, utils)
     rng = ctx.rng
     plan = (('plain', 120), ('mb', 100), ('ws', 60), ('fmt', 120), ('color0', 40), ('junction', 60), ('hostile', 80), ('many', 20),
-            ('nonascii', 15), ('privnick', 15), ('keywords', 150), ('nickmore', 80), ('rename', 60))
+            ('nonascii', 15), ('privnick', 15), ('keywords', 150), ('nickmore', 80), ('rename', 60), ('locale', 40))
     for kind, base in plan:
         for _ in range(ctx.n(base)):
             check_live(ctx, gen_live(rng, kind), ircutils)
@@ -702,6 +827,8 @@ def run(ctx):
 def replay(ctx, inp):
     ircutils, utils = mods()
     sub = type(ctx)(ctx.pid, ctx.tier, ctx.seed, {'model_ok': False})
+    if inp['op'] == 'scenario':
+        return scenario(inp)
     if inp['op'] == 'unit':
         text, size = inp['text'], inp['size']
         ib = guarded(lambda: utils.str.byteTextWrap(text, size), 5)
@@ -717,6 +844,8 @@ def replay(ctx, inp):
 
 
 def shrink(ctx, inp):
+    if inp['op'] == 'scenario':
+        return inp
     key = 's' if inp['op'] == 'live' else 'text'
     d0 = replay(ctx, inp)
     if not d0:
